@@ -16,7 +16,10 @@ use std::fmt::Write as _;
 use std::path::Path;
 
 pub const POOL: &[&str] = &["Aa", "Bb", "Cc", "Dd"];
-pub const FORMS: &[&str] = &["fn", "ty", "lit", "ctor", "bound", "dyn", "unq", "nofn"];
+pub const FORMS: &[&str] = &["fn", "ty", "lit", "ctor", "bound", "dyn", "unq", "nofn", "smeth", "sself", "tmeth", "flow"];
+/// forms whose path has three segments (`P::SP::mk`, `P::SP::get`, `P::TP::m`) or that only *use* a value of a type of
+/// the target without naming it (`flow`)
+pub const PATH_FORMS: &[&str] = &["smeth", "sself", "tmeth", "flow"];
 
 #[derive(Clone, Debug)]
 pub enum State {
@@ -36,6 +39,9 @@ pub struct Use {
     pub target: String,
     /// own items spelled with the package prefix
     pub qual: bool,
+    /// `sself`, `flow`: the package whose function `make<target>()` hands out the value (the target itself, or an
+    /// import of the current package that imports the target); "-" otherwise
+    pub via: String,
 }
 
 #[derive(Clone, Debug, PartialEq)]
@@ -71,10 +77,26 @@ pub struct World {
     pub shape: &'static str,
 }
 
-fn std_items(p: &str) -> String {
-    format!(
-        "struct S{p} {{\n    v: int32,\n}}\n\nstruct R{p} {{\n    v: int32,\n}}\n\nstruct G{p}[T] {{\n    x: T,\n}}\n\nenum E{p} {{\n    K0,\n    K1(int32),\n}}\n\ntrait T{p} {{\n    fn m(Self) -> int32;\n}}\n\nimpl T{p} for S{p} {{\n    fn m(self: S{p}) -> int32 {{\n        self.v\n    }}\n}}\n\nfn f{p}(x: int32) -> int32 {{\n    x\n}}\n"
-    )
+fn std_items(p: &str, imports: &[String]) -> String {
+    let mut s = format!(
+        "struct S{p} {{\n    v: int32,\n}}\n\nstruct R{p} {{\n    v: int32,\n}}\n\nstruct G{p}[T] {{\n    x: T,\n}}\n\nenum E{p} {{\n    K0,\n    K1(int32),\n}}\n\ntrait T{p} {{\n    fn m(Self) -> int32;\n}}\n\nimpl T{p} for S{p} {{\n    fn m(self: S{p}) -> int32 {{\n        self.v\n    }}\n}}\n\nimpl T{p} for bool {{\n    fn m(self: bool) -> int32 {{\n        2\n    }}\n}}\n\nimpl S{p} {{\n    fn mk(x: int32) -> S{p} {{\n        S{p} {{ v: x }}\n    }}\n    fn get(self: S{p}) -> int32 {{\n        self.v\n    }}\n}}\n\nfn f{p}(x: int32) -> int32 {{\n    x\n}}\n\nfn make{p}() -> S{p} {{\n    S{p} {{ v: 1 }}\n}}\n"
+    );
+    // a function handing out a value of every imported package's struct: the legitimate way for a package that
+    // imports only this one to hold such a value
+    let mut seen: Vec<&String> = Vec::new();
+    for d in imports {
+        if d == p || seen.contains(&d) {
+            continue;
+        }
+        seen.push(d);
+        write!(s, "\nfn make{d}() -> {d}::S{d} {{\n    {d}::S{d} {{ v: 3 }}\n}}\n").unwrap();
+    }
+    s
+}
+
+/// `V::make<target>()`
+fn via_call(q: &str, u: &Use) -> String {
+    if u.via == q { format!("make{}()", u.target) } else { format!("{}::make{}()", u.via, u.target) }
 }
 
 fn use_text(q: &str, i: usize, u: &Use) -> String {
@@ -88,6 +110,10 @@ fn use_text(q: &str, i: usize, u: &Use) -> String {
         "bound" => format!("fn u{i}{q}[T: {pre}T{p}](x: T) -> int32 {{\n    1\n}}\n"),
         "dyn" => format!("fn u{i}{q}(x: dyn {pre}T{p}) -> int32 {{\n    1\n}}\n"),
         "unq" => format!("fn u{i}{q}(x: int32) -> int32 {{\n    f{p}(x)\n}}\n"),
+        "smeth" => format!("fn u{i}{q}() -> int32 {{\n    let s = {pre}S{p}::mk(1);\n    1\n}}\n"),
+        "sself" => format!("fn u{i}{q}() -> int32 {{\n    let s = {};\n    {pre}S{p}::get(s)\n}}\n", via_call(q, u)),
+        "tmeth" => format!("fn u{i}{q}() -> int32 {{\n    {pre}T{p}::m(true)\n}}\n"),
+        "flow" => format!("fn u{i}{q}() -> int32 {{\n    let t = {};\n    t.v\n}}\n", via_call(q, u)),
         _ => format!("fn u{i}{q}(x: int32) -> int32 {{\n    {pre}nope{p}(x)\n}}\n"),
     }
 }
@@ -138,7 +164,7 @@ pub fn sources(w: &World) -> Vec<(String, String)> {
             writeln!(s0, "import {}", d).unwrap();
         }
         s0.push('\n');
-        s0.push_str(&std_items(&decl));
+        s0.push_str(&std_items(&decl, &p.imports));
         let mut s1 = format!("package {}\n\n", decl);
         let mut has1 = false;
         for (i, u) in p.uses.iter().enumerate() {
@@ -192,7 +218,7 @@ pub fn world_sexp(w: &World) -> S {
                 let uses: Vec<S> = p
                     .uses
                     .iter()
-                    .map(|u| l(vec![a("use"), a(u.file.to_string()), a(u.form.clone()), a(u.target.clone()), a(if u.qual { "q" } else { "u" })]))
+                    .map(|u| l(vec![a("use"), a(u.file.to_string()), a(u.form.clone()), a(u.target.clone()), a(if u.qual { "q" } else { "u" }), a(u.via.clone())]))
                     .collect();
                 let impls: Vec<S> = p
                     .impls
@@ -222,7 +248,9 @@ pub fn world_sexp(w: &World) -> S {
 }
 
 pub fn gen_world(idx: usize, rng: &mut Rng) -> World {
-    let np = 1 + rng.below(4);
+    let kind = idx % 10;
+    // chains need depth >= 2: at least two packages below Main
+    let np = if kind == 1 || kind == 2 { 2 + rng.below(3) } else { 1 + rng.below(4) };
     let mut names: Vec<&str> = POOL.to_vec();
     for i in (1..names.len()).rev() {
         let j = rng.below(i + 1);
@@ -230,9 +258,9 @@ pub fn gen_world(idx: usize, rng: &mut Rng) -> World {
     }
     let names: Vec<String> = names[..np].iter().map(|s| s.to_string()).collect();
     let mut pkgs: Vec<Pkg> = Vec::new();
-    let kind = idx % 10;
     let shape: &'static str = match kind {
         0 => "diamond",
+        1 | 2 => "chain",
         6 => "cycle",
         7 => "missing-package",
         8 => "misdeclared",
@@ -248,6 +276,17 @@ pub fn gen_world(idx: usize, rng: &mut Rng) -> World {
     for (i, p) in names.iter().enumerate() {
         let imps: Vec<String> = names[i + 1..].iter().filter(|_| rng.chance(1, 2)).cloned().collect();
         pkgs.push(Pkg { name: p.clone(), state: State::Ok, imports: imps, uses: vec![], impls: vec![] });
+    }
+    if shape == "chain" {
+        // depth >= 2: Main -> n0 -> n1 -> …, now and then with a shortcut
+        pkgs[0].imports = vec![names[0].clone()];
+        for i in 0..np {
+            pkgs[i + 1].imports = if i + 1 < np { vec![names[i + 1].clone()] } else { vec![] };
+        }
+        if np >= 3 && rng.chance(1, 3) {
+            let n2 = names[2].clone();
+            pkgs[1].imports.push(n2);
+        }
     }
     if shape == "diamond" && np >= 3 {
         pkgs[0].imports = vec![names[0].clone(), names[1].clone()];
@@ -289,24 +328,67 @@ pub fn gen_world(idx: usize, rng: &mut Rng) -> World {
     }
     // placements
     let all: Vec<String> = pkgs.iter().map(|p| p.name.clone()).collect();
-    let nplace = rng.below(4);
+    let nplace = if shape == "chain" { 1 + rng.below(3) } else { rng.below(4) };
     for _ in 0..nplace {
-        let qi = rng.below(pkgs.len());
+        // in a chain the root is where packages are reachable only transitively
+        let qi = if shape == "chain" && rng.chance(1, 2) { 0 } else { rng.below(pkgs.len()) };
         let q = pkgs[qi].name.clone();
         if rng.chance(3, 5) {
-            let form = FORMS[rng.below(FORMS.len())].to_string();
-            // target: an import, a transitive-only package, a package not imported at all, or the package itself
-            let target = match rng.below(6) {
+            let mut form = if rng.chance(2, 5) { PATH_FORMS[rng.below(PATH_FORMS.len())] } else { FORMS[rng.below(FORMS.len())] }.to_string();
+            // packages reachable from q only through an import of an import
+            let mut trans: Vec<String> = Vec::new();
+            {
+                let mut todo: Vec<String> = pkgs[qi].imports.clone();
+                let mut seen: Vec<String> = Vec::new();
+                while let Some(x) = todo.pop() {
+                    if seen.contains(&x) {
+                        continue;
+                    }
+                    seen.push(x.clone());
+                    if let Some(px) = pkgs.iter().find(|p| p.name == x) {
+                        todo.extend(px.imports.iter().cloned());
+                    }
+                }
+                for x in seen {
+                    if x != q && !pkgs[qi].imports.contains(&x) && pkgs.iter().any(|p| p.name == x) {
+                        trans.push(x);
+                    }
+                }
+                trans.sort();
+            }
+            // target: the package itself, an import, a transitive-only package, or any package of the world
+            let target = match rng.below(8) {
                 0 => q.clone(),
                 1 | 2 if !pkgs[qi].imports.is_empty() => pkgs[qi].imports[rng.below(pkgs[qi].imports.len())].clone(),
+                3 | 4 | 5 | 6 if !trans.is_empty() => trans[rng.below(trans.len())].clone(),
                 _ => all[rng.below(all.len())].clone(),
             };
             if target == "Main" && q != "Main" {
                 continue;
             }
+            // who hands out a value of the target's struct
+            let mut via = "-".to_string();
+            if form == "sself" || form == "flow" {
+                if target == q || pkgs[qi].imports.contains(&target) {
+                    via = target.clone();
+                } else {
+                    let cands: Vec<String> = pkgs[qi]
+                        .imports
+                        .iter()
+                        .filter(|v| **v != q && pkgs.iter().any(|p| &p.name == *v && p.imports.contains(&target)))
+                        .cloned()
+                        .collect();
+                    if cands.is_empty() {
+                        form = "smeth".to_string();
+                    } else {
+                        via = cands[rng.below(cands.len())].clone();
+                    }
+                }
+            }
+            let newform = PATH_FORMS.contains(&form.as_str());
             let file = if (form == "fn" || form == "ty") && rng.chance(1, 6) { 1 } else { 0 };
-            let qual = q != "Main" && target == q && rng.chance(1, 2);
-            pkgs[qi].uses.push(Use { file, form, target, qual });
+            let qual = q != "Main" && target == q && !newform && rng.chance(1, 2);
+            pkgs[qi].uses.push(Use { file, form, target, qual, via });
         } else {
             let pick = |rng: &mut Rng, pkgs: &Vec<Pkg>| -> String {
                 match rng.below(5) {
@@ -394,47 +476,64 @@ pub fn main(args: &util::Args) {
     let n = args.n.unwrap_or(if quick { 2000 } else { 20000 });
     let base = util::scratch_dir("c16");
     let mut rng = Rng::new(args.seed ^ 0xC16);
-    let mut out = String::new();
-    for i in 0..n {
-        let mut r = rng.fork(i as u64);
-        let w = gen_world(i, &mut r);
-        let files = sources(&w);
-        let proj = Project { id: format!("w{}", i), kind: "world", files, tags: vec![] };
-        let mut outcomes: Vec<(String, String)> = Vec::new();
-        for c in 0..3u64 {
-            let root = base.join(format!("w{}-{}", i, c));
-            materialize(&root, &proj, c * 7919);
-            // a fresh thread per compile: fresh hash keys
-            let r2 = root.clone();
-            let (o, raw) = std::thread::Builder::new()
-                .stack_size(128 << 20)
-                .spawn(move || real_outcome(&r2))
-                .unwrap()
-                .join()
-                .unwrap_or_else(|_| (l(vec![a("thread-panic")]), String::new()));
-            outcomes.push((o.to_text(), raw));
-            let _ = std::fs::remove_dir_all(&root);
+    // worlds are generated sequentially (one PRNG), compiled by a pool of workers (each compile still runs on a
+    // fresh thread of its own: fresh hash keys); lines are written in world order
+    let worlds: Vec<World> = (0..n)
+        .map(|i| {
+            let mut r = rng.fork(i as u64);
+            gen_world(i, &mut r)
+        })
+        .collect();
+    let dump = args.rest.iter().any(|x| x == "--dump");
+    let next = std::sync::atomic::AtomicUsize::new(0);
+    let lines: std::sync::Mutex<Vec<Option<String>>> = std::sync::Mutex::new(vec![None; n]);
+    let workers = std::thread::available_parallelism().map(|x| x.get()).unwrap_or(4).clamp(2, 8);
+    std::thread::scope(|sc| {
+        for _ in 0..workers {
+            sc.spawn(|| loop {
+                let i = next.fetch_add(1, std::sync::atomic::Ordering::SeqCst);
+                if i >= n {
+                    break;
+                }
+                let w = &worlds[i];
+                let files = sources(w);
+                let proj = Project { id: format!("w{}", i), kind: "world", files, tags: vec![] };
+                let mut outcomes: Vec<(String, String)> = Vec::new();
+                for c in 0..3u64 {
+                    let root = base.join(format!("w{}-{}", i, c));
+                    materialize(&root, &proj, c * 7919);
+                    let r2 = root.clone();
+                    let (o, raw) = std::thread::Builder::new()
+                        .stack_size(128 << 20)
+                        .spawn(move || real_outcome(&r2))
+                        .unwrap()
+                        .join()
+                        .unwrap_or_else(|_| (l(vec![a("thread-panic")]), String::new()));
+                    outcomes.push((o.to_text(), raw));
+                    let _ = std::fs::remove_dir_all(&root);
+                }
+                let same = outcomes.iter().all(|o| o == &outcomes[0]);
+                let line = format!(
+                    "w{}\tCASE\t{}\t{}\t{}\t{}\t{}\n",
+                    i,
+                    world_sexp(w).to_text(),
+                    outcomes[0].0,
+                    w.shape,
+                    if same { "same".to_string() } else { esc_line(&outcomes.iter().map(|o| format!("{} «{}»", o.0, o.1)).collect::<Vec<_>>().join(" ;; ")) },
+                    esc_line(&outcomes[0].1),
+                );
+                lines.lock().unwrap()[i] = Some(line);
+                if dump && i < 40 {
+                    let mut s = String::new();
+                    for (rel, c) in &proj.files {
+                        write!(s, "=== {}\n{}\n", rel, c).unwrap();
+                    }
+                    std::fs::write(args.out.join(format!("c16.src.w{}.txt", i)), s).unwrap();
+                }
+            });
         }
-        let same = outcomes.iter().all(|o| o == &outcomes[0]);
-        writeln!(
-            out,
-            "w{}\tCASE\t{}\t{}\t{}\t{}\t{}",
-            i,
-            world_sexp(&w).to_text(),
-            outcomes[0].0,
-            w.shape,
-            if same { "same".to_string() } else { esc_line(&outcomes.iter().map(|o| format!("{} «{}»", o.0, o.1)).collect::<Vec<_>>().join(" ;; ")) },
-            esc_line(&outcomes[0].1),
-        )
-        .unwrap();
-        if args.rest.iter().any(|x| x == "--dump") && i < 40 {
-            let mut s = String::new();
-            for (rel, c) in &proj.files {
-                write!(s, "=== {}\n{}\n", rel, c).unwrap();
-            }
-            std::fs::write(args.out.join(format!("c16.src.w{}.txt", i)), s).unwrap();
-        }
-    }
+    });
+    let out: String = lines.into_inner().unwrap().into_iter().map(|l| l.unwrap_or_default()).collect();
     std::fs::write(args.out.join("c16.cases.tsv"), out).unwrap();
     let _ = std::fs::remove_dir_all(&base);
 }
